@@ -72,7 +72,7 @@ def render_source(item, derive=None):
             body = '%s { %s }' % (v['ident'], ', '.join(fs))
         out.append('    %s,' % body)
     if lt:
-        out.append("    LtCarrier(&'l0 str),")
+        out.append("    %sLtCarrier(&'l0 str)," % ('#[strum(disabled)] ' if item.get('lt_carrier_disabled') else ''))
     out.append('}')
     return '\n'.join(out)
 
@@ -154,8 +154,8 @@ def resolve(item):
         e.variants.append(vs)
         raw.append('rawv %s attrs=%s fdw=%s' % (item['id'], ','.join(vcodes) or '-', '.'.join(map(str, fdw)) or '-'))
     if item.get('lifetimes', 0) and item['kind'] == 'enum':
-        e.variants.append(VSpec(ident='LtCarrier', kind='tuple', ftypes=['u8']))
-        raw.append('rawv %s attrs=- fdw=0' % item['id'])
+        e.variants.append(VSpec(ident='LtCarrier', kind='tuple', ftypes=['u8'], dis=bool(item.get('lt_carrier_disabled'))))
+        raw.append('rawv %s attrs=%s fdw=0' % (item['id'], 'dis' if item.get('lt_carrier_disabled') else '-'))
     return e, raw
 
 
@@ -223,6 +223,9 @@ def generate(tier):
         if d in ('EnumIter', 'FromRepr', 'EnumTable'):
             cs.add(d, cs.enum(d, [unit('Alpha'), unit('Beta')], lifetimes=1), 'R3-lifetime', 'reject')
             cs.add(d, cs.enum(d, [unit('Alpha'), unit('Beta')], lifetimes=2), 'R3-lifetime', 'reject')
+            it = cs.enum(d, [unit('Alpha'), unit('Beta')], lifetimes=1)
+            it['lt_carrier_disabled'] = True   # the only data-carrying variant is disabled: still a lifetime parameter
+            cs.add(d, it, 'R3-lifetime-disabled-carrier', 'reject' if d != 'EnumTable' else None)
         elif d not in UNIT_ONLY:
             cs.add(d, cs.enum(d, [unit('Alpha'), unit('Beta')], lifetimes=1), 'control-lifetime', None)
         # R2 data-carrying variants
